@@ -482,6 +482,14 @@ func (r *replayer) run(w *world) error {
 		Xb, Yb, prf = [][]kyber.Point{xb}, [][]kyber.Point{yb}, p
 	case "replaceX":
 		Xb[q][adv.A-1], _ = s.AlterPoint(Xb[q][adv.A-1])
+	case "replaceY":
+		Yb[q][adv.A-1], _ = s.AlterPoint(Yb[q][adv.A-1])
+	case "comptamper":
+		var err error
+		Xb, Yb, prf, err = r.biffleTamper(w, adv.A, adv.B)
+		if err != nil {
+			return fmt.Errorf("harness: biffle forger failed: %w", err)
+		}
 	case "replace":
 		rr, mm := s.NonZeroScalar(), s.NonZeroScalar()
 		Xb[q][adv.A-1] = s.Point().Mul(rr, G)
@@ -755,6 +763,68 @@ func (r *replayer) runSimple(w *world, adv, ver Step) error {
 	err = proof.HashVerify(s, protoName, func(ctx proof.VerifierContext) error { return vs.Verify(G, Gamma, ctx) }, prf)
 	r.judge(w, adv, ver, err)
 	return nil
+}
+
+// ---------------------------------------------------------------- biffle: component tamper + best-effort prover
+
+// biffleTamper: a dishonest mixer shuffles with its own blinding factors (bit = the permutation of this world), replaces
+// output component comp (1..4 = Xbar[0], Ybar[0], Xbar[1], Ybar[1]) and proves - with the library's own Rep/And/Or prover,
+// over the points of the TAMPERED output - the biffle statement in which the one Rep it cannot satisfy is kept (hyp = 0,
+// stale witness) or replaced by a copy of the hyp-th other Rep of that branch (hyp = 1..3).
+func (r *replayer) biffleTamper(w *world, comp, hyp int) ([][]kyber.Point, [][]kyber.Point, []byte, error) {
+	s := w.s
+	bit := w.pi[0]
+	beta := [2]kyber.Scalar{s.NonZeroScalar(), s.NonZeroScalar()}
+	X, Y := w.X[0], w.Y[0]
+	Xb, Yb := make([]kyber.Point, 2), make([]kyber.Point, 2)
+	for i := 0; i < 2; i++ {
+		pi := i ^ bit
+		Xb[i] = s.Point().Add(s.Point().Mul(beta[pi], w.G), X[pi])
+		Yb[i] = s.Point().Add(s.Point().Mul(beta[pi], w.H), Y[pi])
+	}
+	switch comp {
+	case 1:
+		Xb[0], _ = s.AlterPoint(Xb[0])
+	case 2:
+		Yb[0], _ = s.AlterPoint(Yb[0])
+	case 3:
+		Xb[1], _ = s.AlterPoint(Xb[1])
+	case 4:
+		Yb[1], _ = s.AlterPoint(Yb[1])
+	}
+	sub := func(a, b kyber.Point) kyber.Point { return s.Point().Sub(a, b) }
+	points := map[string]kyber.Point{"G": w.G, "H": w.H,
+		"Xbar0-X0": sub(Xb[0], X[0]), "Ybar0-Y0": sub(Yb[0], Y[0]), "Xbar1-X1": sub(Xb[1], X[1]), "Ybar1-Y1": sub(Yb[1], Y[1]),
+		"Xbar0-X1": sub(Xb[0], X[1]), "Ybar0-Y1": sub(Yb[0], Y[1]), "Xbar1-X0": sub(Xb[1], X[0]), "Ybar1-Y0": sub(Yb[1], Y[0])}
+	type st struct{ p, x, b string }
+	branches := [2][4]st{
+		{{"Xbar0-X0", "beta0", "G"}, {"Ybar0-Y0", "beta0", "H"}, {"Xbar1-X1", "beta1", "G"}, {"Ybar1-Y1", "beta1", "H"}},
+		{{"Xbar0-X1", "beta1", "G"}, {"Ybar0-Y1", "beta1", "H"}, {"Xbar1-X0", "beta0", "G"}, {"Ybar1-Y0", "beta0", "H"}},
+	}
+	if hyp > 0 {
+		k := 0
+		for i := 0; i < 4; i++ {
+			if i == comp-1 {
+				continue
+			}
+			k++
+			if k == hyp {
+				branches[bit][comp-1] = branches[bit][i]
+			}
+		}
+	}
+	var ands []proof.Predicate
+	for _, br := range branches {
+		var reps []proof.Predicate
+		for _, t := range br {
+			reps = append(reps, proof.Rep(t.p, t.x, t.b))
+		}
+		ands = append(ands, proof.And(reps...))
+	}
+	or := proof.Or(ands...)
+	prover := or.Prover(s, map[string]kyber.Scalar{"beta0": beta[0], "beta1": beta[1]}, points, map[proof.Predicate]int{or: bit})
+	prf, err := proof.HashProve(s, protoName, prover)
+	return [][]kyber.Point{Xb}, [][]kyber.Point{Yb}, prf, err
 }
 
 // ---------------------------------------------------------------- DESIGN 7 #7: simple-shuffle detachment
